@@ -11,7 +11,7 @@ ID = 'C02'
 RULE = ('Complete cross product of a value pool (numbers 0, +-1, 2, 3, fractions, 1.15, 2.675, 1e+-200; numeric, padded, '
         'non-numeric and empty text; TRUE/FALSE; blank reference; all 7 errors; thorough adds Python-float traps) x 12 binary '
         'and 3 unary operators, each operand pair given as cell values (=B1 op C1 evaluated through a Dispatcher) and as '
-        'literals (="3"+TRUE compiled and called); plus Hypothesis random finite floats (subnormals, +-1e308, >2^53) and '
+        'literals (="3"+TRUE compiled and called) and as computed sub-expressions (=(1=1)+("3"&""): numpy scalars); plus Hypothesis random finite floats (subnormals, +-1e308, >2^53) and '
         'an oracle-free trichotomy/transitivity check of the six comparisons over all pool triples. Oracle: vf/xlref/core '
         '(own coercion, error, power, display and ordering rules). Non-trivial = operands of different kinds, or an '
         'error/blank/text operand, or an error result; distinct by (operator, a, b, spelling).')
@@ -97,6 +97,18 @@ def lit_eval(f):
         return Foreign('raised:%s' % type(ex).__name__)
 
 
+def computed(v):
+    """The same value as the result of a sub-expression: results of operators and functions come back as numpy
+    scalars / 0-d arrays, which the scalar rules must treat exactly like literals (a numpy boolean is not a bool)."""
+    if isinstance(v, bool):
+        return 'AND(1=1,1=1)' if v else 'AND(1=1,1=2)'  # AND returns a numpy boolean
+    if isinstance(v, float):
+        return '(%s+0)' % X.literal(v)
+    if isinstance(v, str):
+        return '(%s&"")' % X.literal(v)
+    return X.literal(v)
+
+
 def judge(opc, op, a, b, got, exp, tag):
     """-> list of failures"""
     if got == Foreign('no-output'):
@@ -124,6 +136,23 @@ def check_pair(case):
         except Exception as ex:
             got = Foreign('raised:%s' % type(ex).__name__)
         text = '=B1%sC1 with B1=%r, C1=%r' % (op, a, b)
+    elif sp == 'comp':
+        text = '=%s%s%s' % (computed(a), op, computed(b))
+        got = lit_eval(text)
+    elif sp == 'blank-comp':
+        # a blank cell against a computed operand (only a cell can be blank)
+        if isinstance(a, Blank):
+            f = '=B1%s%s' % (op, computed(b))
+        else:
+            f = '=%s%sB1' % (computed(a), op)
+        text = f + ' with B1 blank'
+        try:
+            v, _ = sut.cell_eval('A1', f, {'B1': [[BLANK]]})
+            got = sut.one(v) if not isinstance(v, str) or v != 'MISSING' else Foreign('no-output')
+        except sut.Watchdog:
+            raise
+        except Exception as ex:
+            got = Foreign('raised:%s' % type(ex).__name__)
     else:
         text = '=%s%s%s' % (X.literal(a), op, X.literal(b))
         got = lit_eval(text)
@@ -243,6 +272,14 @@ def _enum(tier):
                 yield {'k': 'pair', 'op': op, 'a': enc(a), 'b': enc(b), 'sp': 'cell'}
                 if not isinstance(a, Blank) and not isinstance(b, Blank):
                     yield {'k': 'pair', 'op': op, 'a': enc(a), 'b': enc(b), 'sp': 'lit'}
+                    if not (isinstance(a, float) and abs(a) in (1e200, 1e-200)) and not (isinstance(b, float) and abs(b) in (1e200, 1e-200)):
+                        yield {'k': 'pair', 'op': op, 'a': enc(a), 'b': enc(b), 'sp': 'comp'}
+    for op in BIN:
+        for v in P:
+            if isinstance(v, (Blank, Err)) or (isinstance(v, float) and abs(v) in (1e200, 1e-200)):
+                continue
+            yield {'k': 'pair', 'op': op, 'a': None, 'b': enc(v), 'sp': 'blank-comp'}
+            yield {'k': 'pair', 'op': op, 'a': enc(v), 'b': None, 'sp': 'blank-comp'}
     for op in UN:
         for a in P:
             yield {'k': 'unary', 'op': op, 'a': enc(a), 'sp': 'cell'}
